@@ -199,6 +199,7 @@ def dumpState (s : State) (e : Env) (bound : Nat) (addrs : List Nat) : String :=
 
 structure DState where
   st : Option State := none
+  snaps : List (String × State) := []
 
 def envP : P Env := do
   let caller ← nat; let round ← nat; let epoch ← nat; let egld ← nat
@@ -233,7 +234,7 @@ def handle (d : DState) (line : String) : DState × String :=
     | .error m => (d, s!"X parse error: {m}")
     | .ok ((v, a, e), _) =>
       match init v a e with
-      | .ok s => ({ st := some s }, "R ok " ++ showOut {})
+      | .ok s => ({ st := some s, snaps := [] }, "R ok " ++ showOut {})
       | .error err => (d, s!"R {err.cls} " ++ showOut {})
   | "call" :: rest =>
     let p : P (Env × Bool × Call) := do
@@ -248,7 +249,7 @@ def handle (d : DState) (line : String) : DState × String :=
       | none => (d, "X no contract deployed")
       | some s =>
         match step sha s e c with
-        | .ok (s', o) => ((if probe then d else { st := some s' }), "R ok " ++ showOut o)
+        | .ok (s', o) => ((if probe then d else { d with st := some s' }), "R ok " ++ showOut o)
         | .error err => (d, s!"R {err.cls} " ++ showOut {})
   | "dump" :: rest =>
     let p : P (Nat × Nat × List Nat) := do
@@ -262,6 +263,15 @@ def handle (d : DState) (line : String) : DState × String :=
       | none => (d, "X no contract deployed")
       | some s => (d, dumpState s { caller := 0, round := round } bound addrs)
   | "reset" :: _ => ({ st := none }, "R reset")
+  | "snap" :: name :: _ =>
+    match d.st with
+    | none => (d, "X no contract deployed")
+    | some s => ({ d with snaps := (name, s) :: d.snaps.filter (·.1 != name) }, "R snap")
+  | "restore" :: name :: _ =>
+    match d.snaps.find? (·.1 == name) with
+    | none => (d, "X no such snapshot")
+    | some (_, s) => ({ d with st := some s }, "R restore")
+  | "storage" :: _ => (d, "S")
   | other :: _ => (d, s!"X unknown op {other}")
 
 partial def loop (h : IO.FS.Stream) (out : IO.FS.Stream) (d : DState) : IO Unit := do
